@@ -194,7 +194,7 @@ func (da *DistributedAllocator) Allocate(ctx context.Context, subscriberID strin
 	// Use appropriate allocator based on mode
 	if da.mode == PoolModeLease {
 		// Lease mode: use epoch bitmap allocator
-		ip, err := da.epochAllocator.Allocate(ctx, subscriberID)
+		ip, err := da.leaseAddressLocked(ctx, subscriberID, existed)
 		if err != nil {
 			return nil, err
 		}
@@ -232,6 +232,7 @@ func (da *DistributedAllocator) Allocate(ctx context.Context, subscriberID strin
 		return nil, fmt.Errorf("save allocation: %w", err)
 	}
 
+	da.renewExistingLeaseLocked(ctx, subscriberID, existed)
 	return prefix, nil
 }
 
@@ -247,7 +248,7 @@ func (da *DistributedAllocator) AllocateWithMAC(ctx context.Context, subscriberI
 
 	// Use appropriate allocator based on mode
 	if da.mode == PoolModeLease {
-		ip, err := da.epochAllocator.Allocate(ctx, subscriberID)
+		ip, err := da.leaseAddressLocked(ctx, subscriberID, existed)
 		if err != nil {
 			return nil, err
 		}
@@ -282,6 +283,7 @@ func (da *DistributedAllocator) AllocateWithMAC(ctx context.Context, subscriberI
 		return nil, fmt.Errorf("save allocation: %w", err)
 	}
 
+	da.renewExistingLeaseLocked(ctx, subscriberID, existed)
 	return prefix, nil
 }
 
@@ -294,6 +296,27 @@ func (da *DistributedAllocator) hasAllocationLocked(subscriberID string) bool {
 	return da.allocator.Lookup(subscriberID) != nil
 }
 
+// leaseAddressLocked returns the subscriber's lease-mode address: the one it
+// already holds (without touching its generation - the lease is only renewed
+// once the store has accepted the new epoch), or a newly allocated one.
+// The caller must hold da.mu.
+func (da *DistributedAllocator) leaseAddressLocked(ctx context.Context, subscriberID string, existed bool) (net.IP, error) {
+	if existed {
+		if ip := da.epochAllocator.Lookup(subscriberID); ip != nil {
+			return ip, nil
+		}
+	}
+	return da.epochAllocator.Allocate(ctx, subscriberID)
+}
+
+// renewExistingLeaseLocked refreshes the generation of a lease the subscriber
+// held before the call, after its record was persisted. The caller must hold da.mu.
+func (da *DistributedAllocator) renewExistingLeaseLocked(ctx context.Context, subscriberID string, existed bool) {
+	if existed && da.mode == PoolModeLease {
+		da.epochAllocator.Renew(ctx, subscriberID)
+	}
+}
+
 // Renew updates the epoch for an existing allocation (lease mode).
 func (da *DistributedAllocator) Renew(ctx context.Context, subscriberID string) error {
 	if da.mode != PoolModeLease {
@@ -303,19 +326,24 @@ func (da *DistributedAllocator) Renew(ctx context.Context, subscriberID string) 
 	da.mu.Lock()
 	defer da.mu.Unlock()
 
-	// Renew in epoch allocator (updates generation to current epoch)
-	if err := da.epochAllocator.Renew(ctx, subscriberID); err != nil {
-		return err
+	if da.epochAllocator.Lookup(subscriberID) == nil {
+		return ErrNotFound
 	}
 
-	// Update distributed store
+	// Update distributed store first: the in-memory lease must not outlive
+	// the stored record when the write fails
 	alloc, err := da.getAllocation(ctx, subscriberID)
 	if err != nil {
 		return err
 	}
 
 	alloc.Epoch = da.epochAllocator.GetCurrentEpoch()
-	return da.saveAllocation(ctx, alloc)
+	if err := da.saveAllocation(ctx, alloc); err != nil {
+		return err
+	}
+
+	// Renew in epoch allocator (updates generation to current epoch)
+	return da.epochAllocator.Renew(ctx, subscriberID)
 }
 
 // Release frees a previously allocated prefix.
